@@ -43,7 +43,8 @@
      [retrieve]/[retr_chunks] (the model of the C); [false] switches the fast path off and gives the
      reference machine used in the proofs (Safe/RetrChunk.v);
    * constants and tables regenerated from the source: Gen/Consts.v, Gen/DecTabs.v (in particular the
-     delta range check, the selector clamp and the two run-accumulation guards [run_acc_guards]).
+     delta range check, the selector clamp, the two run-accumulation guards [run_acc_guards] and the
+     threshold [fast_path_words] of the fast-path test).
 
    One call:  [retrieve st]  =  RESTORE(); switch (rs->state) ...        with [attach]/[attach_eof]
    standing for what expand.c's attach() stores in the struct bitstream before the call (a non-empty
@@ -361,12 +362,14 @@ Definition group_select (c : core) : gsel :=
   else GOut (BRet E_ERR_UNTERM c).
 
 (* [fast_ok]: the test (limit - next) >= 32 is honoured (always so in retrieve(); RetrProofs.v also runs
-   the machine with the fast path switched off, as the reference for chunk independence) *)
+   the machine with the fast path switched off, as the reference for chunk independence).  The threshold is the
+   regenerated constant [fast_path_words] of Gen/DecTabs.v (transcribed from the test in retrieve()); the only
+   fact the proofs use about it is [RetrSafe.fast_path_words_enough]: that many words hold a whole group. *)
 Definition group_head (fast_ok : bool) (c : core) (next : list N) : bres * list N :=
   match group_select c with
   | GOut r => (r, next)
   | GSel c =>
-      if fast_ok && (32 <=? N.of_nat (length next)) then                      (* if ((limit - next) >= 32) *)
+      if fast_ok && (fast_path_words <=? N.of_nat (length next)) then         (* if ((limit - next) >= 32) *)
         match ofO (FRead RTree) (nth_error (r_tree c) (N.to_nat (r_t c))) with
         | XF f => (BFault f, next)
         | XV T => fast_loop (N.to_nat GROUP_SIZE) T c next (r_run c) (r_runChar c) (r_shift c)
